@@ -8,14 +8,29 @@
            order statements over any ordered field with trivial star (ℚ – what the driver runs – and ℝ).
            The only hypotheses are the ones the driver certifies exactly on every input
            (`A * Ainv = 1`, `Aᵀ = A`, `A = L D Lᵀ`, `D > 0`, `G * Ginv = 1`) plus, for the semidefinite
-           statements, that the joint kernel Gram matrix is positive semidefinite (that is C03).
+           statements, that the joint kernel Gram matrix of observed + query points is positive
+           semidefinite.  That hypothesis is stated abstractly in Parts I–II and DISCHARGED for
+           libsigopt's kernels in Part IV (it is C03).
   Part II  the same statements about the executable model `Model/C02.lean` (`predict`), obtained
            through the bridge `toM`/`toV`; hypothesis: the Boolean `Pre.certified … = true`.
   Part III floor, lie data, generated constants.
+  Part IV  composition with C03 (over ℝ): for every radial kernel (square exponential, C0/C2/C4 Matérn;
+           any dimension, length scales, points, alpha ≥ 0) and for the multitask tensor kernel the
+           joint matrix IS positive semidefinite (`radial_joint_posSemidef`, `multitask_joint_posSemidef`),
+           so posterior covariance PSD / variance ≥ 0 hold with only `A * Ainv = 1` and `A.PosDef` left
+           (`radial_post_cov_posSemidef`, `radial_post_var_nonneg`), and with only `A * Ainv = 1` left
+           when every noise variance is > 0 (`radial_post_var_nonneg_of_noise_pos`).
+           Not composed: the executable ℚ-model of Part II.  Its kernel matrices are rational inputs
+           (the floats the library computed), whereas the kernel values are `exp`/`sqrt` expressions,
+           irrational except in degenerate cases; relating the two exactly is impossible and relating
+           them approximately needs a rounding-error analysis (PSD is not stable under rounding), so
+           `model_cov_posSemidef` / `model_var_nonneg` keep `hJ` as a hypothesis.
 -/
 import Proofs.C02Matrix
 import Proofs.C02Bridge
 import Proofs.ListMinMax
+import Proofs.C02Kernel
+import Properties.C03
 import Mathlib.Data.Rat.Star
 import Mathlib.Algebra.Order.Star.Real
 import Mathlib.Tactic.NormNum
@@ -726,5 +741,294 @@ example : ∃ (A : Mat 2 2) (P : Mat 2 1) (pre : Pre 2 1), pre.certified A P fal
   ⟨#v[#v[2, 1], #v[1, 2]], #v[#v[1], #v[1]],
    { Ainv := #v[#v[2/3, -1/3], #v[-1/3, 2/3]], L := #v[#v[1, 0], #v[1/2, 1]],
      Linv := #v[#v[1, 0], #v[-1/2, 1]], D := #v[2, 3/2], Ginv := #v[#v[3/2]] }, by decide +kernel⟩
+
+/-! ## Part IV — Composition with C03: the hypotheses discharged for libsigopt's kernels
+
+Every semidefiniteness theorem above takes the hypothesis `hJ`: the joint kernel matrix of observed and
+query points `fromBlocks A K*ᵀ K* K**` is positive semidefinite.  For libsigopt's kernels this is a
+theorem (Properties/C03.lean: `radial_gram_posSemidef`, `multitask_gram_posSemidef`): the joint matrix is
+the Gram matrix of the `n + q` points `Fin.append X Q` reindexed along `Fin n ⊕ Fin q ≃ Fin (n + q)`
+(Proofs/C02Kernel.lean).  What remains are the two facts about the observed block alone that the library
+gets from its Cholesky factorisation: `A * Ainv = 1` and `A.PosDef` – and the second one is itself a
+theorem as soon as every noise variance is strictly positive.
+
+Notation: `K(X,X) = gramMatrix k X`, `K* = K(Q,X) = crossMatrix k Q X` (rows = query points, columns =
+observed points), `K** = gramMatrix k Q`, `A = Spec.noisy K(X,X) noise = K(X,X) + diag(noise)`.
+Over `ℝ` (the kernels involve `exp` and `sqrt`). -/
+
+section Kernel
+open Kernels (gramMatrix)
+
+variable {P : Type} {n q d : Nat}
+
+/-! ### any kernel function whose Gram matrix on the `n + q` points is PSD -/
+
+/-- 1. The joint block matrix is the Gram matrix of the combined family `Sum.elim X Q`, i.e. of the
+    concatenation `Fin.append X Q` reindexed along `finSumFinEquiv`; it is PSD whenever every finite
+    Gram matrix of `k` is. -/
+theorem joint_gram_fromBlocks (k : P → P → ℝ) (X : Fin n → P) (Q : Fin q → P) :
+    fromBlocks (gramMatrix k X) (crossMatrix k X Q) (crossMatrix k Q X) (gramMatrix k Q)
+        = Matrix.of (fun a b => k (Sum.elim X Q a) (Sum.elim X Q b)) ∧
+    fromBlocks (gramMatrix k X) (crossMatrix k X Q) (crossMatrix k Q X) (gramMatrix k Q)
+        = (gramMatrix k (Fin.append X Q)).submatrix finSumFinEquiv finSumFinEquiv ∧
+    ((∀ (m : Nat) (pts : Fin m → P), (gramMatrix k pts).PosSemidef) →
+      (fromBlocks (gramMatrix k X) (crossMatrix k X Q) (crossMatrix k Q X) (gramMatrix k Q)).PosSemidef ∧
+      (fromBlocks (gramMatrix k X) (crossMatrix k Q X)ᵀ (crossMatrix k Q X) (gramMatrix k Q)).PosSemidef) :=
+  ⟨joint_gram_eq_sumElim k X Q, joint_gram_eq_append k X Q,
+    fun h => ⟨joint_gram_posSemidef (h _ _), joint_posSemidef_of_gram (h _ _)⟩⟩
+
+/-- Posterior covariance PSD for any kernel function: the only kernel hypothesis is that the Gram
+    matrix of the `n + q` points is PSD. -/
+theorem gram_post_cov_posSemidef {k : P → P → ℝ} {X : Fin n → P} {Q : Fin q → P}
+    (hk : (gramMatrix k (Fin.append X Q)).PosSemidef) {noise : Fin n → ℝ} (hn : ∀ i, 0 ≤ noise i)
+    {Ainv : Matrix (Fin n) (Fin n) ℝ} (hA : Spec.noisy (gramMatrix k X) noise * Ainv = 1)
+    (hpd : (Spec.noisy (gramMatrix k X) noise).PosDef) :
+    (Spec.cov (gramMatrix k Q) (crossMatrix k Q X) Ainv).PosSemidef :=
+  Spec.post_cov_posSemidef hA hpd (noisy_joint_posSemidef_of_gram hk hn)
+
+theorem gram_post_var_nonneg {k : P → P → ℝ} {X : Fin n → P} {Q : Fin q → P}
+    (hk : (gramMatrix k (Fin.append X Q)).PosSemidef) {noise : Fin n → ℝ} (hn : ∀ i, 0 ≤ noise i)
+    {Ainv : Matrix (Fin n) (Fin n) ℝ} (hA : Spec.noisy (gramMatrix k X) noise * Ainv = 1)
+    (hpd : (Spec.noisy (gramMatrix k X) noise).PosDef) (i : Fin q) :
+    0 ≤ Spec.var (fun i => k (Q i) (Q i)) (crossMatrix k Q X) Ainv i :=
+  Spec.post_var_nonneg (Kss := gramMatrix k Q) hA hpd (noisy_joint_posSemidef_of_gram hk hn) i
+
+/-- With strictly positive noise `A` is positive definite (no hypothesis on the points: duplicates
+    allowed), so only `A * Ainv = 1` remains. -/
+theorem gram_post_var_nonneg_of_noise_pos {k : P → P → ℝ} {X : Fin n → P} {Q : Fin q → P}
+    (hk : (gramMatrix k (Fin.append X Q)).PosSemidef) {noise : Fin n → ℝ} (hn : ∀ i, 0 < noise i)
+    {Ainv : Matrix (Fin n) (Fin n) ℝ} (hA : Spec.noisy (gramMatrix k X) noise * Ainv = 1) (i : Fin q) :
+    0 ≤ Spec.var (fun i => k (Q i) (Q i)) (crossMatrix k Q X) Ainv i :=
+  gram_post_var_nonneg hk (fun i => (hn i).le) hA
+    (noisy_posDef_of_noise_pos (gram_left_posSemidef hk) hn) i
+
+/-! ### the radial kernels (square exponential, C0, C2, C4 Matérn), any dimension `d` -/
+
+/-- the Gram matrix of the `n + q` observed and query points of a radial kernel is PSD -/
+theorem radial_append_gram_posSemidef (kind : Kernels.Kind) {alpha : ℝ} (ha : 0 ≤ alpha) (l : Fin d → ℝ)
+    (x : Fin n → Fin d → ℝ) (xs : Fin q → Fin d → ℝ) :
+    (gramMatrix (Kernels.kernel kind alpha (List.ofFn l))
+      (Fin.append (fun i => List.ofFn (x i)) (fun j => List.ofFn (xs j)))).PosSemidef := by
+  rw [append_map]
+  exact C03.radial_gram_posSemidef kind ha l (Fin.append x xs)
+
+/-- 2. For every radial kind, every dimension, all length scales, `alpha ≥ 0`, all observed points
+    `x i` and query points `xs j`: the joint kernel matrix `[[K(X,X), K(Q,X)ᵀ],[K(Q,X), K(Q,Q)]]` is
+    positive semidefinite – the hypothesis `hJ`/`hK` of `post_cov_posSemidef`, `post_var_nonneg`,
+    `joint_posSemidef_of_kernel`, now a theorem. -/
+theorem radial_joint_posSemidef (kind : Kernels.Kind) {alpha : ℝ} (ha : 0 ≤ alpha) (l : Fin d → ℝ)
+    (x : Fin n → Fin d → ℝ) (xs : Fin q → Fin d → ℝ) :
+    (fromBlocks
+      (gramMatrix (Kernels.kernel kind alpha (List.ofFn l)) (fun i => List.ofFn (x i)))
+      (crossMatrix (Kernels.kernel kind alpha (List.ofFn l)) (fun j => List.ofFn (xs j))
+        (fun i => List.ofFn (x i)))ᵀ
+      (crossMatrix (Kernels.kernel kind alpha (List.ofFn l)) (fun j => List.ofFn (xs j))
+        (fun i => List.ofFn (x i)))
+      (gramMatrix (Kernels.kernel kind alpha (List.ofFn l)) (fun j => List.ofFn (xs j)))).PosSemidef :=
+  joint_posSemidef_of_gram (radial_append_gram_posSemidef kind ha l x xs)
+
+/-- … and stays so with the observation noise `≥ 0` on the observed block (`A` in place of `K(X,X)`). -/
+theorem radial_noisy_joint_posSemidef (kind : Kernels.Kind) {alpha : ℝ} (ha : 0 ≤ alpha) (l : Fin d → ℝ)
+    (x : Fin n → Fin d → ℝ) (xs : Fin q → Fin d → ℝ) {noise : Fin n → ℝ} (hn : ∀ i, 0 ≤ noise i) :
+    (fromBlocks
+      (Spec.noisy (gramMatrix (Kernels.kernel kind alpha (List.ofFn l)) (fun i => List.ofFn (x i))) noise)
+      (crossMatrix (Kernels.kernel kind alpha (List.ofFn l)) (fun j => List.ofFn (xs j))
+        (fun i => List.ofFn (x i)))ᵀ
+      (crossMatrix (Kernels.kernel kind alpha (List.ofFn l)) (fun j => List.ofFn (xs j))
+        (fun i => List.ofFn (x i)))
+      (gramMatrix (Kernels.kernel kind alpha (List.ofFn l)) (fun j => List.ofFn (xs j)))).PosSemidef :=
+  noisy_joint_posSemidef_of_gram (radial_append_gram_posSemidef kind ha l x xs) hn
+
+/-- 3. Posterior covariance of a GP with a radial kernel: positive semidefinite.  `A = K(X,X) +
+    diag(noise)`, `noise ≥ 0`, `K* = K(Q,X)`, `K** = K(Q,Q)`; remaining hypotheses: `A * Ainv = 1` and
+    `A.PosDef` (can fail for duplicated points with zero noise – the library's Cholesky then fails). -/
+theorem radial_post_cov_posSemidef (kind : Kernels.Kind) {alpha : ℝ} (ha : 0 ≤ alpha) (l : Fin d → ℝ)
+    (x : Fin n → Fin d → ℝ) (xs : Fin q → Fin d → ℝ) {noise : Fin n → ℝ} (hn : ∀ i, 0 ≤ noise i)
+    {Ainv : Matrix (Fin n) (Fin n) ℝ}
+    (hA : Spec.noisy (gramMatrix (Kernels.kernel kind alpha (List.ofFn l)) (fun i => List.ofFn (x i))) noise
+      * Ainv = 1)
+    (hpd : (Spec.noisy (gramMatrix (Kernels.kernel kind alpha (List.ofFn l)) (fun i => List.ofFn (x i)))
+      noise).PosDef) :
+    (Spec.cov
+      (gramMatrix (Kernels.kernel kind alpha (List.ofFn l)) (fun j => List.ofFn (xs j)))
+      (crossMatrix (Kernels.kernel kind alpha (List.ofFn l)) (fun j => List.ofFn (xs j))
+        (fun i => List.ofFn (x i)))
+      Ainv).PosSemidef :=
+  gram_post_cov_posSemidef (radial_append_gram_posSemidef kind ha l x xs) hn hA hpd
+
+/-- 3. Posterior variance of a GP with a radial kernel: non-negative at every query point (`K_x_x` is
+    the diagonal of `K(Q,Q)`, i.e. `k(x,x)`). -/
+theorem radial_post_var_nonneg (kind : Kernels.Kind) {alpha : ℝ} (ha : 0 ≤ alpha) (l : Fin d → ℝ)
+    (x : Fin n → Fin d → ℝ) (xs : Fin q → Fin d → ℝ) {noise : Fin n → ℝ} (hn : ∀ i, 0 ≤ noise i)
+    {Ainv : Matrix (Fin n) (Fin n) ℝ}
+    (hA : Spec.noisy (gramMatrix (Kernels.kernel kind alpha (List.ofFn l)) (fun i => List.ofFn (x i))) noise
+      * Ainv = 1)
+    (hpd : (Spec.noisy (gramMatrix (Kernels.kernel kind alpha (List.ofFn l)) (fun i => List.ofFn (x i)))
+      noise).PosDef) (i : Fin q) :
+    0 ≤ Spec.var
+      (fun j => Kernels.kernel kind alpha (List.ofFn l) (List.ofFn (xs j)) (List.ofFn (xs j)))
+      (crossMatrix (Kernels.kernel kind alpha (List.ofFn l)) (fun j => List.ofFn (xs j))
+        (fun i => List.ofFn (x i)))
+      Ainv i :=
+  gram_post_var_nonneg (radial_append_gram_posSemidef kind ha l x xs) hn hA hpd i
+
+/-- … in the form the library computes it: `K_x_x` is the constant process variance `alpha`
+    (`k(x,x) = alpha`). -/
+theorem radial_post_var_nonneg_alpha (kind : Kernels.Kind) {alpha : ℝ} (ha : 0 ≤ alpha) (l : Fin d → ℝ)
+    (x : Fin n → Fin d → ℝ) (xs : Fin q → Fin d → ℝ) {noise : Fin n → ℝ} (hn : ∀ i, 0 ≤ noise i)
+    {Ainv : Matrix (Fin n) (Fin n) ℝ}
+    (hA : Spec.noisy (gramMatrix (Kernels.kernel kind alpha (List.ofFn l)) (fun i => List.ofFn (x i))) noise
+      * Ainv = 1)
+    (hpd : (Spec.noisy (gramMatrix (Kernels.kernel kind alpha (List.ofFn l)) (fun i => List.ofFn (x i)))
+      noise).PosDef) (i : Fin q) :
+    0 ≤ Spec.var (fun _ => alpha)
+      (crossMatrix (Kernels.kernel kind alpha (List.ofFn l)) (fun j => List.ofFn (xs j))
+        (fun i => List.ofFn (x i)))
+      Ainv i := by
+  have h := radial_post_var_nonneg kind ha l x xs hn hA hpd i
+  simpa only [C03.kernel_self] using h
+
+/-- With strictly positive noise on every observed point `A` is positive definite whatever the points
+    (duplicates included) … -/
+theorem radial_noisy_posDef_of_noise_pos (kind : Kernels.Kind) {alpha : ℝ} (ha : 0 ≤ alpha) (l : Fin d → ℝ)
+    (x : Fin n → Fin d → ℝ) {noise : Fin n → ℝ} (hn : ∀ i, 0 < noise i) :
+    (Spec.noisy (gramMatrix (Kernels.kernel kind alpha (List.ofFn l)) (fun i => List.ofFn (x i)))
+      noise).PosDef :=
+  noisy_posDef_of_noise_pos (C03.radial_gram_posSemidef kind ha l x) hn
+
+/-- … so the posterior variance is non-negative with `A * Ainv = 1` as the ONLY hypothesis besides
+    the parameter ranges `alpha ≥ 0`, `noise > 0`. -/
+theorem radial_post_var_nonneg_of_noise_pos (kind : Kernels.Kind) {alpha : ℝ} (ha : 0 ≤ alpha)
+    (l : Fin d → ℝ) (x : Fin n → Fin d → ℝ) (xs : Fin q → Fin d → ℝ) {noise : Fin n → ℝ}
+    (hn : ∀ i, 0 < noise i) {Ainv : Matrix (Fin n) (Fin n) ℝ}
+    (hA : Spec.noisy (gramMatrix (Kernels.kernel kind alpha (List.ofFn l)) (fun i => List.ofFn (x i))) noise
+      * Ainv = 1) (i : Fin q) :
+    0 ≤ Spec.var
+      (fun j => Kernels.kernel kind alpha (List.ofFn l) (List.ofFn (xs j)) (List.ofFn (xs j)))
+      (crossMatrix (Kernels.kernel kind alpha (List.ofFn l)) (fun j => List.ofFn (xs j))
+        (fun i => List.ofFn (x i)))
+      Ainv i :=
+  radial_post_var_nonneg kind ha l x xs (fun i => (hn i).le) hA
+    (radial_noisy_posDef_of_noise_pos kind ha l x hn) i
+
+/-- the covariance matrix likewise -/
+theorem radial_post_cov_posSemidef_of_noise_pos (kind : Kernels.Kind) {alpha : ℝ} (ha : 0 ≤ alpha)
+    (l : Fin d → ℝ) (x : Fin n → Fin d → ℝ) (xs : Fin q → Fin d → ℝ) {noise : Fin n → ℝ}
+    (hn : ∀ i, 0 < noise i) {Ainv : Matrix (Fin n) (Fin n) ℝ}
+    (hA : Spec.noisy (gramMatrix (Kernels.kernel kind alpha (List.ofFn l)) (fun i => List.ofFn (x i))) noise
+      * Ainv = 1) :
+    (Spec.cov
+      (gramMatrix (Kernels.kernel kind alpha (List.ofFn l)) (fun j => List.ofFn (xs j)))
+      (crossMatrix (Kernels.kernel kind alpha (List.ofFn l)) (fun j => List.ofFn (xs j))
+        (fun i => List.ofFn (x i)))
+      Ainv).PosSemidef :=
+  radial_post_cov_posSemidef kind ha l x xs (fun i => (hn i).le) hA
+    (radial_noisy_posDef_of_noise_pos kind ha l x hn)
+
+/-! ### the multitask tensor kernel (physical kernel × task kernel); point = physical coordinates ++ [task] -/
+
+theorem multitask_append_gram_posSemidef (kp kt : Kernels.Kind) {alpha : ℝ} (ha : 0 ≤ alpha) (l : Fin d → ℝ)
+    (lt : ℝ) (x : Fin n → Fin d → ℝ) (t : Fin n → ℝ) (xs : Fin q → Fin d → ℝ) (ts : Fin q → ℝ) :
+    (gramMatrix (Kernels.multitask kp kt alpha (List.ofFn l) lt)
+      (Fin.append (fun i => List.ofFn (x i) ++ [t i]) (fun j => List.ofFn (xs j) ++ [ts j]))).PosSemidef := by
+  have e := append_map (fun p : (Fin d → ℝ) × ℝ => List.ofFn p.1 ++ [p.2])
+    (fun i => (x i, t i)) (fun j => (xs j, ts j))
+  simp only at e
+  rw [e]
+  exact C03.multitask_gram_posSemidef kp kt ha l lt
+    (fun i => (Fin.append (fun i => (x i, t i)) (fun j => (xs j, ts j)) i).1)
+    (fun i => (Fin.append (fun i => (x i, t i)) (fun j => (xs j, ts j)) i).2)
+
+theorem multitask_joint_posSemidef (kp kt : Kernels.Kind) {alpha : ℝ} (ha : 0 ≤ alpha) (l : Fin d → ℝ)
+    (lt : ℝ) (x : Fin n → Fin d → ℝ) (t : Fin n → ℝ) (xs : Fin q → Fin d → ℝ) (ts : Fin q → ℝ) :
+    (fromBlocks
+      (gramMatrix (Kernels.multitask kp kt alpha (List.ofFn l) lt) (fun i => List.ofFn (x i) ++ [t i]))
+      (crossMatrix (Kernels.multitask kp kt alpha (List.ofFn l) lt) (fun j => List.ofFn (xs j) ++ [ts j])
+        (fun i => List.ofFn (x i) ++ [t i]))ᵀ
+      (crossMatrix (Kernels.multitask kp kt alpha (List.ofFn l) lt) (fun j => List.ofFn (xs j) ++ [ts j])
+        (fun i => List.ofFn (x i) ++ [t i]))
+      (gramMatrix (Kernels.multitask kp kt alpha (List.ofFn l) lt)
+        (fun j => List.ofFn (xs j) ++ [ts j]))).PosSemidef :=
+  joint_posSemidef_of_gram (multitask_append_gram_posSemidef kp kt ha l lt x t xs ts)
+
+theorem multitask_post_cov_posSemidef (kp kt : Kernels.Kind) {alpha : ℝ} (ha : 0 ≤ alpha) (l : Fin d → ℝ)
+    (lt : ℝ) (x : Fin n → Fin d → ℝ) (t : Fin n → ℝ) (xs : Fin q → Fin d → ℝ) (ts : Fin q → ℝ)
+    {noise : Fin n → ℝ} (hn : ∀ i, 0 ≤ noise i) {Ainv : Matrix (Fin n) (Fin n) ℝ}
+    (hA : Spec.noisy (gramMatrix (Kernels.multitask kp kt alpha (List.ofFn l) lt)
+      (fun i => List.ofFn (x i) ++ [t i])) noise * Ainv = 1)
+    (hpd : (Spec.noisy (gramMatrix (Kernels.multitask kp kt alpha (List.ofFn l) lt)
+      (fun i => List.ofFn (x i) ++ [t i])) noise).PosDef) :
+    (Spec.cov
+      (gramMatrix (Kernels.multitask kp kt alpha (List.ofFn l) lt) (fun j => List.ofFn (xs j) ++ [ts j]))
+      (crossMatrix (Kernels.multitask kp kt alpha (List.ofFn l) lt) (fun j => List.ofFn (xs j) ++ [ts j])
+        (fun i => List.ofFn (x i) ++ [t i]))
+      Ainv).PosSemidef :=
+  gram_post_cov_posSemidef (multitask_append_gram_posSemidef kp kt ha l lt x t xs ts) hn hA hpd
+
+theorem multitask_post_var_nonneg (kp kt : Kernels.Kind) {alpha : ℝ} (ha : 0 ≤ alpha) (l : Fin d → ℝ)
+    (lt : ℝ) (x : Fin n → Fin d → ℝ) (t : Fin n → ℝ) (xs : Fin q → Fin d → ℝ) (ts : Fin q → ℝ)
+    {noise : Fin n → ℝ} (hn : ∀ i, 0 ≤ noise i) {Ainv : Matrix (Fin n) (Fin n) ℝ}
+    (hA : Spec.noisy (gramMatrix (Kernels.multitask kp kt alpha (List.ofFn l) lt)
+      (fun i => List.ofFn (x i) ++ [t i])) noise * Ainv = 1)
+    (hpd : (Spec.noisy (gramMatrix (Kernels.multitask kp kt alpha (List.ofFn l) lt)
+      (fun i => List.ofFn (x i) ++ [t i])) noise).PosDef) (i : Fin q) :
+    0 ≤ Spec.var
+      (fun j => Kernels.multitask kp kt alpha (List.ofFn l) lt (List.ofFn (xs j) ++ [ts j])
+        (List.ofFn (xs j) ++ [ts j]))
+      (crossMatrix (Kernels.multitask kp kt alpha (List.ofFn l) lt) (fun j => List.ofFn (xs j) ++ [ts j])
+        (fun i => List.ofFn (x i) ++ [t i]))
+      Ainv i :=
+  gram_post_var_nonneg (multitask_append_gram_posSemidef kp kt ha l lt x t xs ts) hn hA hpd i
+
+theorem multitask_post_var_nonneg_of_noise_pos (kp kt : Kernels.Kind) {alpha : ℝ} (ha : 0 ≤ alpha)
+    (l : Fin d → ℝ) (lt : ℝ) (x : Fin n → Fin d → ℝ) (t : Fin n → ℝ) (xs : Fin q → Fin d → ℝ)
+    (ts : Fin q → ℝ) {noise : Fin n → ℝ} (hn : ∀ i, 0 < noise i) {Ainv : Matrix (Fin n) (Fin n) ℝ}
+    (hA : Spec.noisy (gramMatrix (Kernels.multitask kp kt alpha (List.ofFn l) lt)
+      (fun i => List.ofFn (x i) ++ [t i])) noise * Ainv = 1) (i : Fin q) :
+    0 ≤ Spec.var
+      (fun j => Kernels.multitask kp kt alpha (List.ofFn l) lt (List.ofFn (xs j) ++ [ts j])
+        (List.ofFn (xs j) ++ [ts j]))
+      (crossMatrix (Kernels.multitask kp kt alpha (List.ofFn l) lt) (fun j => List.ofFn (xs j) ++ [ts j])
+        (fun i => List.ofFn (x i) ++ [t i]))
+      Ainv i :=
+  gram_post_var_nonneg_of_noise_pos (multitask_append_gram_posSemidef kp kt ha l lt x t xs ts) hn hA i
+
+/-! ### non-vacuity of the composed statements -/
+
+/-- Two observed points 0 and 1 on the line, one query point 1/2, square exponential kernel with
+    `alpha = 1`, length scale 1, noise variance 1/10 on both observations: the two remaining hypotheses
+    hold (with `Ainv = A⁻¹`), so the posterior variance at the query point is non-negative. -/
+example :
+    let k := Kernels.kernel Kernels.Kind.se (1 : ℝ) (List.ofFn ![(1 : ℝ)])
+    let X : Fin 2 → List ℝ := fun i => List.ofFn ((![![0], ![1]] : Fin 2 → Fin 1 → ℝ) i)
+    let Q : Fin 1 → List ℝ := fun j => List.ofFn ((![![1 / 2]] : Fin 1 → Fin 1 → ℝ) j)
+    let A := Spec.noisy (gramMatrix k X) (fun _ => 1 / 10)
+    ∃ Ainv : Matrix (Fin 2) (Fin 2) ℝ, A * Ainv = 1 ∧ A.PosDef ∧
+      (Spec.cov (gramMatrix k Q) (crossMatrix k Q X) Ainv).PosSemidef ∧
+      0 ≤ Spec.var (fun j => k (Q j) (Q j)) (crossMatrix k Q X) Ainv 0 := by
+  intro k X Q A
+  have hn : ∀ i : Fin 2, (0 : ℝ) < (fun _ => 1 / 10 : Fin 2 → ℝ) i := fun _ => by norm_num
+  have hpd : A.PosDef :=
+    radial_noisy_posDef_of_noise_pos Kernels.Kind.se zero_le_one ![(1 : ℝ)] ![![0], ![1]] hn
+  have hA : A * A⁻¹ = 1 := posDef_mul_inv hpd
+  exact ⟨A⁻¹, hA, hpd,
+    radial_post_cov_posSemidef Kernels.Kind.se zero_le_one ![(1 : ℝ)] ![![0], ![1]] ![![1 / 2]]
+      (fun i => (hn i).le) hA hpd,
+    radial_post_var_nonneg Kernels.Kind.se zero_le_one ![(1 : ℝ)] ![![0], ![1]] ![![1 / 2]]
+      (fun i => (hn i).le) hA hpd 0⟩
+
+/-- `A.PosDef` is a genuine hypothesis when the noise is zero: a duplicated observed point makes
+    `A = K(X,X)` singular (two equal rows), so no `Ainv` with `A * Ainv = 1` exists. -/
+example (kind : Kernels.Kind) (alpha : ℝ) (l : Fin d → ℝ) (p : Fin d → ℝ) :
+    ¬ ∃ Ainv : Matrix (Fin 2) (Fin 2) ℝ,
+      Spec.noisy (gramMatrix (Kernels.kernel kind alpha (List.ofFn l)) (fun _ : Fin 2 => List.ofFn p))
+        (fun _ => 0) * Ainv = 1 := by
+  rintro ⟨Ainv, h⟩
+  have h00 := congrFun (congrFun h 0) 0
+  have h10 := congrFun (congrFun h 1) 0
+  simp [Spec.noisy, Matrix.mul_apply, Fin.sum_univ_two] at h00 h10
+  linarith
+
+end Kernel
 
 end C02
